@@ -38,7 +38,7 @@ def do_call(ex, n, st):
                 continue
             raise OutOfSubset('**kwargs call at line %d' % n.lineno)
         kwargs[kw.arg] = ex.ev(kw.value, st)
-    if fn.pt.kind == 'mtag' and isinstance(n.func, ast.Attribute):
+    if (fn.pt.kind == 'mtag' or (fn.pt.kind == 'opt' and fn.pt.args[0].kind == 'mtag')) and isinstance(n.func, ast.Attribute):
         base = ex.ev(n.func.value, st)
         return call_method(ex, base, n.func.attr, args, kwargs, st, n)
     return apply(ex, fn, args, kwargs, st, n)
@@ -168,9 +168,28 @@ def call_function(ex, qualname, args, kwargs, st, n, closure_node=None, self_obj
     return res
 
 
+def downcast_cell(ex, st, av, pt, n):
+    """a dynamically typed cell used where a str / int / list is required (TypeError otherwise)"""
+    c = av.t
+    if pt.kind == 'str':
+        ok, val = ptypes.cell_is_str(c), SV(TStr, ptypes.cell_sval(c))
+    elif pt.kind == 'int':
+        ok, val = ptypes.cell_is_int(c), SV(TInt, ptypes.cell_ival(c))
+    else:
+        ok, val = ptypes.dt_test('CL', c), SV(pt, ptypes.dt_sel('lref', c, INT, 'CL'))
+    if not ex.branch(st, ok, raising='TypeError', node=n):
+        raise PyExc(ExcV('TypeError'))
+    if pt.kind == 'list':
+        ex.assume_wf(st, val)
+    return val
+
+
 def call_external(ex, name, args, kwargs, st, n):
     if name == 're.compile' and args and args[0].t is not None and args[0].t.op == 'const':
         return SV(PT('regex'), py=args[0].t.val)        # a literal pattern: its assumed contract is keyed by the pattern text
+    if name in ('re.finditer', 're.match', 're.search') and args and args[0].t is not None and args[0].t.op == 'const' and not kwargs:
+        # re.f(pattern, text) == re.compile(pattern).f(text)
+        return strings.regex_method(ex, SV(PT('regex'), py=args[0].t.val), name.split('.')[1], args[1:], kwargs, st, n)
     c = ex.reg.contracts.get(name)
     if c is None:
         raise OutOfSubset('external function %s has no (trusted) contract, line %d' % (name, n.lineno))
@@ -185,6 +204,7 @@ def call_external(ex, name, args, kwargs, st, n):
 def call_contract(ex, c, bound, st, n):
     if c.trusted:
         ex.trusted_used.add('%s: %s' % (c.target, c.trusted))
+    getattr(ex, 'called_contracts', set()).add(c.target)
     callee = State()
     for pn, pt in c.params:
         if pn not in bound:
@@ -195,6 +215,8 @@ def call_contract(ex, c, bound, st, n):
         av = bound[pn]
         if av.pt.kind == 'opt' and pt.kind not in ('opt', 'cell') and av.pt.args[0].kind == pt.kind:
             av = ex.unwrap_opt(st, av, n)
+        if av.pt.kind == 'cell' and pt.kind in ('str', 'int', 'list'):
+            av = downcast_cell(ex, st, av, pt, n)
         callee.locals[pn] = ex.coerce(av, pt, st)
     for pn, pt in c.free:
         if pn not in st.locals:
@@ -230,8 +252,22 @@ def call_contract(ex, c, bound, st, n):
         else:
             result = SV(c.ret, fresh('ret_' + c.target.split('.')[-1], sort_of(c.ret)))
             ex.assume_wf(st, result)
+        # a ghost update is an assignment: its right-hand side reads the ghost fields as they were before the call
+        # (the same reading as on the callee side, where the update is applied to the exit state)
+        mid = State()
+        mid.locals = dict(post.locals)
+        mid.heap = dict(post.heap)
         for tgt, val in c.ghost_updates:
-            v = ex.cvalue(val, post, pre, result, owner=c)
+            if isinstance(tgt, ast.Attribute):
+                try:
+                    o = ex.cvalue(tgt.value, post, pre, result, owner=c)
+                    name, fpt, arr = ex.field_arr(post, o.pt.args[0], tgt.attr)
+                    if name in pre.heap:
+                        mid.heap[name] = pre.heap[name]
+                except Exception:
+                    pass
+        for tgt, val in c.ghost_updates:
+            v = ex.cvalue(val, mid, pre, result, owner=c)
             if isinstance(tgt, ast.Attribute):
                 obj = ex.cvalue(tgt.value, post, pre, result, owner=c)
                 cur = ex.get_field(post, obj, tgt.attr)
@@ -416,6 +452,33 @@ def find_method(ex, cls, name):
 
 
 # ------------------------------------------------------------------ methods
+def assigned_methods(ex, cls, attr):
+    """names X of all `self.<attr> = self.X` statements in the real class (and its bases): the dispatch candidates"""
+    out = []
+    seen = set()
+    todo = [cls]
+    while todo:
+        c = todo.pop()
+        if c in seen:
+            continue
+        seen.add(c)
+        ci = ex.program.classes.get(c)
+        if ci is None:
+            continue
+        node = ci[1] if isinstance(ci, tuple) else ci
+        for sub in ast.walk(node):
+            if isinstance(sub, ast.Assign) and len(sub.targets) == 1:
+                t, v = sub.targets[0], sub.value
+                if (isinstance(t, ast.Attribute) and t.attr == attr and isinstance(t.value, ast.Name) and t.value.id == 'self'
+                        and isinstance(v, ast.Attribute) and isinstance(v.value, ast.Name) and v.value.id == 'self'):
+                    if v.attr not in out and find_method(ex, cls, v.attr) is not None:
+                        out.append(v.attr)
+        cd = ex.reg.classes.get(c)
+        if cd is not None:
+            todo.extend(getattr(cd, 'bases', []) or [])
+    return out
+
+
 def call_method(ex, base, attr, args, kwargs, st, n):
     k = base.pt.kind
     if k == 'opt':
@@ -425,17 +488,25 @@ def call_method(ex, base, attr, args, kwargs, st, n):
         cls = base.pt.args[0]
         # call through a field holding a bound method (polymorphic_* idiom)
         home = ex.reg.field_home(cls, attr)
-        if home is not None and home[1].kind == 'mtag':
+        if home is not None and (home[1].kind == 'mtag' or (home[1].kind == 'opt' and home[1].args[0].kind == 'mtag')):
             tagv = ex.get_field(st, base, attr)
-            cands = [nm for nm in METHOD_TAGS if find_method(ex, cls, nm) is not None]
+            if tagv.pt.kind == 'opt':
+                tagv = ex.unwrap_opt(st, tagv, n)
+            cands = assigned_methods(ex, cls, attr)
+            if not cands:
+                cands = [nm for nm in METHOD_TAGS if find_method(ex, cls, nm) is not None]
             for nm in cands:
                 if ex.branch(st, Eq(tagv.t, IntC(method_tag(nm)))):
                     return call_method(ex, base, nm, args, kwargs, st, n)
+            # the field holds none of the bound methods the class ever stores in it: must be unreachable
+            ex.oblige(st, 'dispatch.%s.known_method' % attr, FALSE, n, kind='assert', note='call through %s: not one of %s' % (attr, cands))
             raise PathEnd()
         q = find_method(ex, cls, attr)
         if q is None:
             raise OutOfSubset('no method %s on %s (line %d)' % (attr, cls, n.lineno))
         return call_function(ex, q, args, kwargs, st, n, self_obj=base)
+    if k == 'opaque' and isinstance(base.py, tuple) and base.py and base.py[0] == 'copy-of-global' and attr in ('remove', 'append', 'pop', 'insert', 'extend', 'sort', 'reverse'):
+        return NONE         # mutation of a private copy of a module-level container that is only passed on opaquely
     if k == 'str':
         return strings.str_method(ex, base, attr, args, kwargs, st, n)
     if k == 'list':
@@ -541,8 +612,8 @@ def to_str(ex, st, v, n):
             return v.py.msg.t
         return fresh('str_exc', STR)
     if k == 'cell':
-        smt.declare_fun('cell_str', [CELL], STR)
-        return Ite(ptypes.cell_is_str(v.t), ptypes.cell_sval(v.t), App('cell_str', (v.t,), STR))
+        smt.FUNDEFS.setdefault('sp_cell_text', smt.FunDef('sp_cell_text', [('c', CELL)], STR))
+        return Ite(ptypes.cell_is_str(v.t), ptypes.cell_sval(v.t), App('sp_cell_text', (v.t,), STR))
     if k == 'key':
         smt.declare_fun('key_str', ['Key'], STR)
         return App('key_str', (v.t,), STR)
@@ -603,6 +674,8 @@ def builtin(ex, name, args, kwargs, st, n):
             return ex.new_list(st, v.pt.args[0], v.t)
         if v.pt.kind == 'set':
             return SV(PT('setaslist'), py=v)
+        if v.pt.kind == 'matchseq':
+            return v        # list(re.finditer(..)): the match objects in order; only iterated, never mutated, by the modelled code
         if v.pt.kind in ('pytuple', 'pylist'):
             ept = None
             for p in v.py:
@@ -622,6 +695,8 @@ def builtin(ex, name, args, kwargs, st, n):
         if len(args) == 1:
             hi = ex._int(args[0])
             s = fresh('range', SeqS(INT))
+            from .symexec import RANGE_SEQS
+            RANGE_SEQS.add(s.val)
             i = BVar('i', INT)
             st.pc.append(Eq(Len(s), Ite(Ge(hi, IntC(0)), hi, IntC(0))))
             st.pc.append(smt.ForAll([i], Implies(And(Ge(i, IntC(0)), Lt(i, Len(s))), Eq(Nth(s, i), i))))
